@@ -26,6 +26,14 @@ CLAIMED = {
         text="C04_total_in_bounds: for every byte string and shape, the decoder over the raw-pointer slice flavour (cursor/end indices; an out-of-range read is Fault, an over-wide shift or bad slice is Panic) equals the reference decoder and returns a value or an error only - proved through a generic flavour-simulation theorem (de_sim) and the invariant cursor <= end = len; borrowed strings/bytes are the sub-list of the input at the cursor (C04_borrowed_in_input); the sequence size hint never exceeds the remaining bytes (C04_hint_sound, rule translated from the source). Partial: the machine-level effect of the unsafe reads and the real allocator are observed by the harness (inputs flush against PROT_NONE pages on either side, counting allocator, adversarial length prefixes), not proved.",
         note=NOTE + "the unsafe pointer reads themselves (indices into a list in the model), serde's collection visitors and size_hint::cautious, the allocator",
         design="4 (C04)"),
+    'C05': dict(
+        text="C05_slice / C05_heapless / C05_slice_cobs / C05_heapless_cobs / C05_slice_crc / C05_heapless_crc: for every ordinary value and every capacity, serialising into a caller slice (raw start/cursor/end pointers, a stray write is Fault) or a fixed-capacity vector, plain or under COBS or CRC framing, succeeds exactly when capacity >= length of the complete output, then returns exactly the unbounded output at the front with the rest of the buffer untouched, and otherwise returns buffer-full - never Panic/Fault; C05_growable, C05_size. Proved once for any 'lawful sink' and instantiated per storage. Correspondence + direct oracle: every capacity 0..len+2 for every generated value, slices flush against PROT_NONE pages, canaries.",
+        note=NOTE + "heapless::Vec push/extend_from_slice (all-or-nothing), alloc::Vec, the unsafe pointer writes (indices in the model; guard pages in the harness)",
+        design="4 (C05)"),
+    'C06': dict(
+        text="C06_output_is_cobs: the streaming COBS encoder with placeholder back-patching produces exactly cobs_ref (the block definition) of the plain encoding plus the sentinel, on every storage that fits; C06_one_zero, C06_length (n + floor(n/254) + 2: exact for zero-free messages, upper bound otherwise), C06_roundtrip, C06_frames / C06_frames_no_last_sentinel (frame-at-a-time decoding of back-to-back frames returns each value in order with exactly the bytes after its frame). Direct oracle: independent COBS encoder; exhaustive short messages over {00,01,02,FF}, run lengths around multiples of 254.",
+        note=NOTE + "crate cobs 0.2.3 EncoderState (transcribed from enc.rs, compared on every case)",
+        design="5 (C06)"),
     'C07': dict(
         text="C07_decoder_is_reference: for every buffer the in-place decoder of crate cobs (modelled index by index on one buffer, every access checked) computes exactly the reference COBS decoding of the first frame, fails exactly when a code byte points past the frame, keeps the buffer length and leaves everything from the frame end on untouched (invariant: the write index trails the read index); C07_take_from_bytes_cobs / C07_from_bytes_cobs: the entry points equal reference-decode-then-plain-decode with the remainder starting right after the sentinel; C07_total: never Panic/Fault/out-of-fuel on any bytes. Direct oracle: independent COBS decoder + plain decoder on exhaustive strings over a code-byte alphabet, corruptions and truncations, buffers flush against guard pages.",
         note=NOTE + "crate cobs 0.2.3 decode_in_place / decode_in_place_report (transcribed from dec.rs, compared on every case)",
@@ -49,7 +57,10 @@ CLAIMED = {
     'C13': dict(
         text="C13_ops/C13_bytes/C13_length/C13_roundtrip: for every width, sign, byte order and integer a fixint field serialises as exactly size_of raw pushes in the chosen order (never a varint) and decodes back; the extracted model is compared with the real crate on every generated value and the direct oracle (bytes == to_{le,be}_bytes, round trip) runs on the implementation.",
         note=NOTE + "serde's [u8;N] impl (array as tuple) and to_le_bytes/from_le_bytes",
-        design="6 (C13)"),
+        design="6 (C13)"),    'C20': dict(
+        text="C20_crc_inside_cobs: Crc<Cobs<storage>> outputs the COBS frame of (plain bytes ++ their checksum); C20_cobs_any_storage / C20_crc_any_storage: each modifier is its transformation of the plain encoding on slice, heapless and growable storage alike; C20_unstack: undoing the layers in reverse order recovers the value; C20_user_flavour: a user flavour receives exactly the plain encoding in order, with or without a try_extend override. Direct oracle: independent COBS/CRC transforms composed over to_allocvec's bytes.",
+        note=NOTE + "crates cobs and crc as above; the recording user flavour stands for any user flavour (it sees the call sequence)",
+        design="5 (C20)"),
 }
 
 
